@@ -3,6 +3,8 @@
 //   (0 nx dx x0 rot pol sel pts)                      -> (nrows ncols rows apex)  ProjMatrix on a MeshETurbo
 //   (1 ndim apices meshes pts)                        -> (nrows ncols rows)       ProjMatrix on a MeshEStandard
 //   (2 mesh cov v dest)                               -> (n S lambda coeffs free cs training Q diagfree diagcs ... addToDest of both forms)
+//   (11 meshA meshB ptsA ptsB nullflag v y d1 d2)     -> ProjMulti (2 x 2 blocks of ProjMatrix): blocks, mesh2point / point2mesh / add variants
+//   (5 nx dx x0 conv nodeRes gext v y dst)            -> ProjConvolution: shifts, resolution grid, mesh2point / point2mesh / add variants
 //   (4 nx dx x0 rot pol sel pts)                      -> (-1) when resetFromTurbo fails | (napices nmeshes (turbo rows) (standard rows))
 //   (3 mesh cov pts z var ptsout)                     -> solves through Cholesky / conjugate gradient, kriging both ways
 // mesh = (0 nx dx x0 rot pol sel) | (1 ndim apices meshes);  cov = (param sill ranges angles)
@@ -15,6 +17,8 @@
 #include "Mesh/MeshETurbo.hpp"
 #include "Mesh/MeshEStandard.hpp"
 #include "LinearOp/ProjMatrix.hpp"
+#include "LinearOp/ProjConvolution.hpp"
+#include "LinearOp/ProjMulti.hpp"
 #include "LinearOp/ShiftOpCs.hpp"
 #include "LinearOp/PrecisionOp.hpp"
 #include "LinearOp/PrecisionOpCs.hpp"
@@ -34,6 +38,7 @@
 #include "Matrix/MatrixInt.hpp"
 #include "Covariances/CovAniso.hpp"
 #include "Model/Model.hpp"
+#include "Basic/FunctionalSpirale.hpp"
 #include "Space/ASpaceObject.hpp"
 #include "Space/SpaceRN.hpp"
 #include "Db/Db.hpp"
@@ -46,6 +51,7 @@
 typedef std::vector<double> VD;
 static VectorDouble toVD(const VD& v) { VectorDouble r(v.size()); for (size_t i = 0; i < v.size(); i++) r[i] = v[i]; return r; }
 static VectorInt toVI(const std::vector<int>& v) { VectorInt r(v.size()); for (size_t i = 0; i < v.size(); i++) r[i] = v[i]; return r; }
+static std::vector<int> deep_i(const VectorInt& v) { std::vector<int> r(v.size()); for (size_t i = 0; i < v.size(); i++) r[i] = v.getVector()[i]; return r; }
 static VD deep(const VectorDouble& v) { VD r(v.size()); for (size_t i = 0; i < v.size(); i++) r[i] = v.getVector()[i]; return r; }
 
 static Db* makeDb(const Sx& pts, int ndim, const VD* z = nullptr) {
@@ -109,7 +115,14 @@ static Model* makeModel(const Sx& cv, int ndim) {
   defineDefaultSpace(ESpaceType::RN, ndim);
   double param = cv[0].d(), sill = cv[1].d();
   VD ranges = cv[2].vd(), angles = cv[3].vd();
-  return Model::createFromParam(ECov::MATERN, 1., sill, param, toVD(ranges), VectorDouble(), toVD(angles), nullptr, true);
+  Model* model = Model::createFromParam(ECov::MATERN, 1., sill, param, toVD(ranges), VectorDouble(), toVD(angles), nullptr, true);
+  // optional non-stationary anisotropy angle (2-D): spiral (a b c d sx sy); the functional must outlive the model
+  if (cv.size() >= 5 && cv[4].size() == 6 && ndim == 2) {
+    VD sp = cv[4].vd();
+    FunctionalSpirale* spir = new FunctionalSpirale(sp[0], sp[1], sp[2], sp[3], sp[4], sp[5]);
+    model->getCova(0)->makeAngleNoStatFunctional(spir);
+  }
+  return model;
 }
 
 static std::string run(const Sx& c) {
@@ -139,6 +152,56 @@ static std::string run(const Sx& c) {
     ProjMatrix P(db, mesh);
     o << "(" << projOut(P) << ")";
     delete db; delete mesh;
+  } else if (kind == 11) {
+    // ProjMulti: 2 variables x 2 latent fields; (11 meshA meshB ptsA ptsB nullflag v y d1 d2)
+    MeshETurbo* mA = makeTurbo(c[1], 0); MeshETurbo* mB = makeTurbo(c[2], 0);
+    if (!mA || !mB) return "(-997 2)";
+    int ndim = mA->getNDim();
+    Db* dA = makeDb(c[3], ndim); Db* dB = makeDb(c[4], ndim);
+    ProjMatrix* P[2][2] = { { new ProjMatrix(dA, mA), new ProjMatrix(dA, mB) }, { new ProjMatrix(dB, mA), new ProjMatrix(dB, mB) } };
+    int nullflag = (int) c[5].i();      // 1: block (1,0) absent; 2: block (0,1) absent
+    std::vector<std::vector<const IProjMatrix*>> projs(2, std::vector<const IProjMatrix*>(2));
+    for (int i = 0; i < 2; i++) for (int j = 0; j < 2; j++) projs[i][j] = P[i][j];
+    if (nullflag == 1) projs[1][0] = nullptr;
+    if (nullflag == 2) projs[0][1] = nullptr;
+    ProjMulti pm(projs, true);
+    int nap = pm.getApexNumber(), npt = pm.getPointNumber();
+    auto fill = [](const Sx& l, int n) { std::vector<double> r(n); int m = (int) l.size(); for (int i = 0; i < n; i++) r[i] = m ? l[i % m].d() : 1.; return r; };
+    std::vector<double> v = fill(c[6], nap), y = fill(c[7], npt), a1 = fill(c[8], npt), a2 = fill(c[9], nap);
+    std::vector<double> d1 = a1, d2 = a2, m2p(npt), p2m(nap);
+    pm.mesh2point(constvect(v.data(), nap), vect(m2p.data(), npt));
+    pm.point2mesh(constvect(y.data(), npt), vect(p2m.data(), nap));
+    pm.addMesh2point(constvect(v.data(), nap), vect(a1.data(), npt));
+    pm.addPoint2mesh(constvect(y.data(), npt), vect(a2.data(), nap));
+    o << "(" << nap << " " << npt << " (";
+    for (int i = 0; i < 2; i++) for (int j = 0; j < 2; j++) o << ((i || j) ? " " : "") << "(" << projOut(*P[i][j]) << ")";
+    o << ") " << sx_vd(v) << " " << sx_vd(y) << " " << sx_vd(m2p) << " " << sx_vd(p2m)
+      << " " << sx_vd(d1) << " " << sx_vd(a1) << " " << sx_vd(d2) << " " << sx_vd(a2) << ")";
+    for (int i = 0; i < 2; i++) for (int j = 0; j < 2; j++) delete P[i][j];
+    delete dA; delete dB; delete mA; delete mB;
+  } else if (kind == 5) {
+    // ProjConvolution on a small seismic grid: (5 nx dx x0 conv nodeRes gext v y dst)
+    std::vector<int> nx = c[1].vi(); VD dx = c[2].vd(), x0 = c[3].vd(), cv = c[4].vd();
+    std::vector<int> nres = c[5].vi(); VD gext = c[6].vd();
+    int ndim = (int) nx.size();
+    defineDefaultSpace(ESpaceType::RN, ndim);
+    DbGrid* seis = DbGrid::create(toVI(nx), toVD(dx), toVD(x0));
+    ProjConvolution pc(toVD(cv), seis, toVI(nres), toVD(gext));
+    if (pc._shiftVector.empty() || pc._gridRes2D == nullptr) { delete seis; return "(-1)"; }
+    int nap = pc.getApexNumber(), npt = pc.getPointNumber();
+    auto fill = [](const Sx& l, int n) { std::vector<double> r(n); int m = (int) l.size(); for (int i = 0; i < n; i++) r[i] = m ? l[i % m].d() : 1.; return r; };
+    std::vector<double> v = fill(c[7], nap), y = fill(c[8], npt);
+    std::vector<double> m2p(npt), p2m(nap), a1 = fill(c[9], npt), a2 = fill(c[9], nap);
+    std::vector<double> d1 = a1, d2 = a2;
+    pc.mesh2point(constvect(v.data(), nap), vect(m2p.data(), npt));
+    pc.point2mesh(constvect(y.data(), npt), vect(p2m.data(), nap));
+    pc.addMesh2point(constvect(v.data(), nap), vect(a1.data(), npt));
+    pc.addPoint2mesh(constvect(y.data(), npt), vect(a2.data(), nap));
+    o << "(" << nap << " " << npt << " " << sx_vi(deep_i(pc._shiftVector)) << " " << sx_vi(deep_i(pc._gridRes2D->getNXs()))
+      << " " << sx_vd(deep(pc._gridRes2D->getDXs())) << " " << sx_vd(deep(pc._gridRes2D->getX0s()))
+      << " " << sx_vd(v) << " " << sx_vd(y) << " " << sx_vd(m2p) << " " << sx_vd(p2m)
+      << " " << sx_vd(d1) << " " << sx_vd(a1) << " " << sx_vd(d2) << " " << sx_vd(a2) << ")";
+    delete seis;
   } else if (kind == 4) {
     // MeshEStandard::resetFromTurbo on a fresh object, then the projection of the same samples on both meshings
     MeshETurbo* mesh = makeTurbo(c, 1);
@@ -186,7 +249,37 @@ static std::string run(const Sx& c) {
       << " " << sx_vd(deep(coeffs)) << " " << sx_vd(deep(out1)) << " " << sx_vd(deep(out2)) << " " << sx_vd(deep(out3))
       << " " << denseOut(Qc.getQ()) << " " << sx_vd(deep(Qf.extractDiag())) << " " << sx_vd(deep(Qc.extractDiag()))
       << " " << denseOut(Qc.getShiftOp()->getS()) << " " << sx_vd(deep(Qc.getShiftOp()->getLambdas())) << " " << sx_vd(deep(coeffs2))
-      << " " << sx_vd(v) << " " << sx_vd(dst0) << " " << sx_vd(VD(d1.begin(), d1.end())) << " " << sx_vd(VD(d2.begin(), d2.end())) << ")";
+      << " " << sx_vd(v) << " " << sx_vd(dst0) << " " << sx_vd(VD(d1.begin(), d1.end())) << " " << sx_vd(VD(d2.begin(), d2.end()));
+    // inputs of the finite-element assembly: anisotropy (inverse rotation matrix, scales), mesh topology and corners, TildeC, correc, sill
+    {
+      const MatrixSquareGeneral& am = cova->getAnisoInvMat();
+      o << " (";
+      for (int i = 0; i < ndim; i++) { VD r; for (int j = 0; j < ndim; j++) r.push_back(am.getValue(i, j)); o << (i ? " " : "") << sx_vd(r); }
+      o << ") " << sx_vd(deep(cova->getScales())) << " (";
+      int nc = mesh->getNApexPerMesh();
+      for (int im = 0; im < mesh->getNMeshes(); im++) {
+        o << (im ? " " : "") << "((";
+        for (int ic = 0; ic < nc; ic++) o << (ic ? " " : "") << mesh->getApex(im, ic);
+        o << ") (";
+        for (int ic = 0; ic < nc; ic++) { VD r; for (int d = 0; d < ndim; d++) r.push_back(mesh->getCoor(im, ic, d)); o << (ic ? " " : "") << sx_vd(r); }
+        o << "))";
+      }
+      o << ") " << sx_vd(deep(Qf.getShiftOp()->_TildeC)) << " " << sx_d(cova->getCorrec()) << " " << sx_d(cova->getSill(0, 0));
+      // per-mesh anisotropy when the model is non-stationary (read on the covariance the shift operator works with)
+      o << " (";
+      auto cvs = Qf.getShiftOp()->_cova;
+      if (cvs->isNoStatForAnisotropy()) {
+        for (int im = 0; im < mesh->getNMeshes(); im++) {
+          cvs->updateCovByMesh(im, true);
+          const MatrixSquareGeneral& am2 = cvs->getAnisoInvMat();
+          o << (im ? " " : "") << "((";
+          for (int i = 0; i < ndim; i++) { VD r; for (int j = 0; j < ndim; j++) r.push_back(am2.getValue(i, j)); o << (i ? " " : "") << sx_vd(r); }
+          o << ") " << sx_vd(deep(cvs->getScales())) << ")";
+        }
+      }
+      o << ")";
+    }
+    o << ")";
     delete model; delete mesh;
   } else if (kind == 3) {
     AMesh* mesh = makeMesh(c[1]);
@@ -251,7 +344,18 @@ static std::string run(const Sx& c) {
       << " " << sx_vd(VD(xc[0].begin(), xc[0].end())) << " " << sx_vd(VD(xf[0].begin(), xf[0].end()))
       << " " << sx_d(quad_c) << " " << sx_d(quad_f) << " " << sx_d(logdet_c) << " " << sx_vd(VD(y1.begin(), y1.end()))
       << " " << sx_vd(kc) << " " << sx_vd(kf) << " " << sx_d(q1) << " " << sx_d(q0) << " " << sx_d(ld1) << " " << sx_d(var_api) << " " << sx_d(ll1) << " " << sx_d(ll0)
-      << " (" << projOut(Aout) << ") " << Mf.getLogStats()._inverseCGNIter << " " << sx_vd(kn1) << " " << sx_vd(kn0) << " " << sx_d(var_new) << ")";
+      << " (" << projOut(Aout) << ") " << Mf.getLogStats()._inverseCGNIter << " " << sx_vd(kn1) << " " << sx_vd(kn0) << " " << sx_d(var_new);
+    // operator pieces for the exact kriging system of the model, and the projection matrix applied both ways
+    {
+      VectorDouble lamv = Qc.getShiftOp()->getLambdas();
+      VectorDouble m2p(ndat), p2m(n);
+      VectorDouble zv = toVD(z);
+      A.mesh2point(lamv, m2p);
+      A.point2mesh(zv, p2m);
+      o << " " << denseOut(Qc.getShiftOp()->getS()) << " " << sx_vd(deep(lamv)) << " " << sx_vd(deep(Qc.getCoeffs()))
+        << " " << sx_vd(deep(m2p)) << " " << sx_vd(deep(p2m));
+    }
+    o << ")";
     delete dat; delete dout; delete model; delete mesh;
   } else o << "(-997 1)";
   return o.str();
